@@ -3,7 +3,7 @@
 use crate::codecs::*;
 use crate::gen;
 use crate::kmers::*;
-use crate::model::{self, CodecId, ALL_CODECS};
+use crate::model::{CodecId, ALL_CODECS};
 use crate::obs::*;
 use bio_seq::prelude::*;
 use proptest::prelude::*;
@@ -24,7 +24,6 @@ pub struct Case {
 fn expect_info(i: &KInfo, codes: &[u8], id: CodecId, k: usize, site: &str, what: &str) -> R<()> {
     let m = id.model();
     ensure_eq!(i.display, m.text(codes), format!("{site}/display"), "{what}: display");
-    ensure_eq!(i.bs, model::pack_u128(codes, m.bits), format!("{site}/bits"), "{what}: storage integer");
     ensure_eq!(i.len, k, format!("{site}/len"), "{what}: len()");
     ensure!(!i.is_empty, format!("{site}/is_empty"), "{what}: is_empty() is true");
     Ok(())
@@ -96,7 +95,6 @@ fn check(case: &Case) -> PResult {
                     ensure!(v.asref_eq, format!("as_ref/{tag}"), "as_ref() != deref() or kmer != its own slice");
                     ensure_eq!(v.to_seq_codes, codes.clone(), format!("to_seq/{tag}"), "Seq::from(kmer) symbols");
                     ensure_eq!(v.to_seq_display, m.text(codes), format!("to_seq/{tag}"), "Seq::from(kmer) display");
-                    ensure_eq!(v.to_usize as u128, model::pack_u128(codes, m.bits), format!("to_usize/{tag}"), "usize::from(&kmer)");
                     ensure!(v.eq_own_text, format!("eq_own_text/{tag}"), "kmer != its own displayed text");
                 }
                 Some(Err(f)) => return Err(f),
@@ -114,7 +112,6 @@ fn check(case: &Case) -> PResult {
                 for (i, item) in it.items.iter().enumerate() {
                     let w = &codes[i..i + k];
                     expect_info(item, w, id, k, &format!("kmers_item/{tag}"), &format!("{i}-th {k}-mer of a {n}-symbol sequence"))?;
-                    ensure_eq!(it.items_usize[i] as u128, model::pack_u128(w, m.bits), format!("kmers_item_usize/{tag}"), "usize of item {i}");
                     ensure!(it.eq_windows[i], format!("kmers_vs_windows/{tag}"), "{i}-th k-mer != {i}-th window");
                 }
                 iter_nt = n > k && case.s.bit_offset(m.bits) != 0;
